@@ -65,8 +65,11 @@ def explore(strategy, body, n, seed):
     t()
 
 
-def run_workers(module, func, nworkers, seed, params, timeout=7200):
+def run_workers(module, func, nworkers, seed, params, timeout=None):
     """spawn `nworkers` processes running dv.<module>.<func>(widx, seed, params) and merge their Acc results"""
+    if timeout is None:
+        # a watchdog, not an oracle: a stuck worker makes the run inconclusive (exit 2), never a violation
+        timeout = 1500 if os.environ.get("VERIF_TIER", "quick") != "thorough" and not os.environ.get("DV_LONG") else 6 * 3600
     work = build.workdir("pool-" + module.replace(".", "-"))
     procs = []
     for w in range(nworkers):
